@@ -1,6 +1,7 @@
 /-
 C03 — A PDU stream is re-framed correctly under any fragmentation.
 -/
+import Smpp.Properties.SrcPduFrame
 import Smpp.Proofs.Framing
 import Smpp.Generated.Layouts
 import Smpp.Generated.PduFacts
